@@ -458,7 +458,7 @@ pub fn replay_file(check: &dyn Check, root: &Path, path: &Path) -> i32 {
     }
 }
 
-pub const HANG_LIMIT_S_DEFAULT: u64 = 60;
+pub const HANG_LIMIT_S_DEFAULT: u64 = 120;
 
 /// hang limit in seconds (VERIF_HANG_LIMIT_S overrides the default of 60; used by the self-tests)
 pub fn hang_limit_s() -> u64 {
